@@ -137,6 +137,24 @@ CLAIMS["C16"] = (
     "DESIGN.md §3 C16",
 )
 
+# Rules added after the third seeding round and the triage of what the seeding
+# sub-agents reported about the unchanged tree; appended to the level text.
+ADDENDA = {
+    "C03": " Also: no in-place alteration reaches a value that is neither fresh nor the function's own parameter, with no frozen exception left for the indexed-assignment and json-parse sites (the analysis sees that a value is known to be a collection, or a merge of fresh values and known collections); indexed assignment installs no package-level singleton into a slot it then converts in place (R03.6).",
+    "C05": " Also: the verbs do not consult the reader's NR/FNR other than for messages (R05.10); a value the verb keeps in its own state enters a record only as a copy (R05.11); a function given both a handle and the decompression flag hands the handle back unwrapped only where every decompressing value of the flag is excluded (R05.12).",
+    "C08": " Also: an evaluated value that is put into a map by the interpreter (map literals, emitf) is dominated by the absent test, as assignments are (R08.9b).",
+    "C09": " Also: every sort call of the sort, top and sort-within-records verbs is a stable sort or a sort of plain strings (R09.9).",
+    "C10": " Also: every sort call of the aggregating verbs is stable (R10.7); grouping keys joined through a helper or by hand in a buffer are covered by the injective-key rule (R10.6); ignoring the ok result of a selector is accepted only where every element is individually nil-tested (computed, not listed).",
+    "C11": " Also: no selecting verb reads the reader's NR/FNR (R11.7).",
+    "C12": " Also: every path of a restructuring verb's record function emits, delegates or keeps the record — an emitting loop counts only where it is entered on the non-empty edge of a test of what it walks (R12.6); sorts are stable (R12.7); a run-time string spliced into a regular expression is QuoteMeta'd (R12.8).",
+    "C14": " Also: every control-flow cycle through the body of a while, do-while or triple-for executor passes through a read of the condition and through the update block (R14.11); a function that opens a frame set for a call returns a nil block-exit payload (R14.12).",
+    "C16": " Also: the %1S … %9S table of strftime is read from the registered closures: width k and divisor 10^(9-k) (R16.6).",
+    "C17": " Also: a consumer holding a reader's record and error channels receives records only in a blocking select that also receives the error channel, and polls the error channel on the end-of-stream path (R17.16); the data result of ReadString/ReadBytes is used or known to be empty on every path to a return or the next read (R17.17); the ProcessState of every child command, input or output, is used (R17.13, without exceptions).",
+    "C18": " Also: a path typestate over every verb parser, argument helper and flag parser establishes argc - i >= 1 before each args[i] (R18.10); no map update writes to a value that is nil on a merging edge (R18.11); a slice x[a:len(x)-b] with a,b >= 1 needs an established len(x) >= a+b, where HasPrefix and HasSuffix give the longer length, not the sum, and the text of a match of a constant regexp is at least its shortest match (R18.4d).",
+    "C19": " Also: WrapOutputHandle has an explicit case for every decompressing encoding, and FindInputEncoding's file-name suffixes agree with the read path's (R19.9).",
+    "C20": " Also: every function that rewrites a link of the recency list maintains both end pointers (R20.9, found by type shape, not by name).",
+}
+
 NOT_APPLICABLE = {
     "C13": "Join pairing, ordering and unpaired accounting are relational identities over run-time key values and bucket contents; no clause is a shape fact visible to static analysis (the shared protocol facts are reported under C04/C10/C17).",
 }
@@ -157,7 +175,7 @@ def main():
                 "evidence_file": "evidence/%s.json" % pid,
                 "replay_cmd_template": "./check.sh --explain {path}",
                 "engine": "mlrlint",
-                "level_claimed": {"category": "other", "text": text, "design_ref": ref},
+                "level_claimed": {"category": "other", "text": text + ADDENDA.get(pid, ""), "design_ref": ref},
                 "level_note": note,
                 "technique": tech,
             })
